@@ -19,10 +19,10 @@ EXPLANATION = (
     "ever poisoned); the stores' initial contents are constants of the Known kind. C20.4: every accessor stores Some(..) inside call_once "
     "before returning. C20.1: no unsafe code, no static mut, store fields touched only by the accessor; the global context is taken "
     "mutably only by register_tags. C20.5: compile witnesses - with `multithreaded` Envelope/Assertion/FormatContext: Send + Sync "
-    "type-checks; without it `Envelope: Send` fails with E0277. C20.6: a value written through a store guard is never computed from the same store's content read under a different acquisition (no copy-out / write-back update). Does not decide which text a formatting call returns while another thread "
+    "type-checks; without it `Envelope: Send` fails with E0277. C20.6: a value written through a store guard is never computed from the same store's content read under a different acquisition (no copy-out / write-back update). C20.7: the global format context is never acquired inside a loop or a per-element closure (one rendering = one guard = one state of the context). Does not decide which text a formatting call returns while another thread "
     "is inside register_tags (run-time content), nor liveness beyond lock order.")
 TRUSTED = ['std::sync::Mutex / Once semantics', 'rustc Send/Sync checking', 'dcbor and bc-components bodies as compiled (their MIR is analysed for locks, not for panics)']
-FLOORS = {'C20.1': 3, 'C20.2': 3, 'C20.3': 2, 'C20.4': 4, 'C20.5': 1, 'C20.6': 1}
+FLOORS = {'C20.1': 3, 'C20.2': 3, 'C20.3': 2, 'C20.4': 4, 'C20.5': 1, 'C20.6': 1, 'C20.7': 1}
 
 
 def check(ctx):
@@ -273,6 +273,25 @@ def check(ctx):
         ctx.ok('C20.6', '-', '%d writes through store guards, none fed from another acquisition of the same store' % nwrites)
     elif ctx.config == 'mt':
         ctx.lost('C20.6', 'positive control: a write through a store guard (register_tags / the store initialisers)')
+    # ---------------- C20.7 one acquisition per formatting call: the global format context is read under ONE guard for a whole rendering,
+    # so the text is that of one state of the context. An acquisition inside a loop, or inside a closure (run once per element by an
+    # iterator adaptor / the walk), lets a concurrent register_tags() change the context between two lines of the same result.
+    fc_acc = {b.hash for b in F.bodies if lock.is_accessor(b) and lock.res_name(b.impl_self or '') == 'FC'}
+    nacq = 0
+    for b in F.bodies:
+        for bi, c, t in b.calls():
+            if c is None or c.best_hash not in fc_acc:
+                continue
+            nacq += 1
+            in_closure = '{closure' in b.path
+            in_loop = any(bi in b.reachable(s_) for s_ in b.succ(bi))
+            if in_closure or in_loop:
+                ctx.fail('C20.7', ctx.site(b, bi), 'the global format context is acquired %s: one rendering reads it under several guards, so a concurrent register_tags() can change '
+                         'the context in the middle of one result' % ('inside a closure (once per element)' if in_closure else 'inside a loop'), key='C20.7|' + b.path.split('::{closure')[0])
+    if nacq:
+        ctx.ok('C20.7', '-', '%d acquisitions of the global format context, none inside a loop or a per-element closure' % nacq)
+    elif ctx.config == 'mt':
+        ctx.lost('C20.7', 'acquisitions of the global format context')
     # ---------------- C20.5 compile witnesses (type checking only)
     if ctx.config == 'mt':
         witness(ctx, 'pos', expect_ok=True)
